@@ -91,6 +91,8 @@ def run(ctx):
         sp = gen.make_spec(rng, geom=rng.choice(["box", "logbox", "x0_absent", "x0_absent", "unbounded", "tight"]), cons=rng.choice([None, None, "ball"]))
         sp["options"] = gen.small_options(rng, sp["D"], sp["mode"])
         specs.append(sp)
+    for sp, sd in zip(specs, [0, 2 ** 31 - 1, 1]):       # boundary seed values: 0 is a valid seed
+        sp["seed"] = sd
     jobs, meta = [], []
     for si, sp in enumerate(specs):
         jobs.append((sp, [], [], 0)); meta.append((si, "fresh", [], []))
